@@ -415,6 +415,20 @@ def c06_matchers(v, text="", ode=None, ref=None, code=None, **kw):
     exc = d.get("exc", "") or ""
     if v.get("kind") == "generation_raises" and ("_print_Derivative" in exc or "_print_Subs" in exc or "Derivative" in exc or "Subs" in exc) and ref is not None and own_state_under_floor_mod(ref):
         return "C06-derivative-of-floor-mod-unprintable"
+    if v.get("kind") == "value" and ref is not None and v.get("_point") and "ContinuousConditional" in text and d.get("branch_expected") == "rl":
+        # the emitted linearisation of a saturated sigmoid is inf/inf = nan, |nan| > delta is false, the step is the Euler step
+        from ..refmodel import evalref as E
+        from ..refmodel import schemes as S
+
+        got, eu = d.get("got"), d.get("euler")
+        if got is not None and eu is not None and abs(got - eu) <= 1e-12 * max(1.0, abs(eu)):
+            before = E.COUNTERS.get("saturated_sigmoid", 0)
+            try:
+                S.own_g(ref, v["_point"], d["state"])
+            except Exception:
+                pass
+            if E.COUNTERS.get("saturated_sigmoid", 0) > before:
+                return "C06-linearisation-of-saturated-sigmoid-is-nan"
     return None
 
 
